@@ -762,15 +762,41 @@ def oracle_index(ops, impl):
 
 
 def gen_c20_count(rng, tier):
-    """inputs whose declared counts overflow the parallel reader's `int` / `long` arithmetic before any byte is checked"""
-    ops = ['robust_part lb8.ugrid ' + WITNESS['count_int'], 'robust_part lb8l.ugrid ' + WITNESS['count_long']]
+    """regression guard of finding ugrid-part-count-overflow (repaired by /repo commit 10247dc): files whose declared
+    counts do not fit the file must be REFUSED with REF_FAILURE by the parallel reader before they size or seek anything;
+    thorough: also every count mutant"""
+    ops = ['partraw lb8.ugrid ' + WITNESS['count_int'], 'partraw lb8l.ugrid ' + WITNESS['count_long'],
+           'robust_part lb8.ugrid ' + WITNESS['count_int'], 'robust_part lb8l.ugrid ' + WITNESS['count_long']]
     if tier == 'quick':
         return ops
     items = all_mutants(rng, tier)
     for (suf, lab, d), (ser, par) in zip(items, classify(items)):
-        if par == 'count':
+        if lab.startswith('count@'):
             ops.append('robust_part %s %s' % (suf, d.hex() or '-'))
-    return ops[:40]
+            if par in ('clean', 'orient'):
+                ops.append('partraw %s %s' % (suf, d.hex() or '-'))
+    return ops[:120]
+
+
+def oracle_count(ops, impl):
+    """C20, stated directly: the reader comes back, and a file whose seven counts do not describe a file of its size is
+    not accepted by the parallel reader (independent size computation from the documented layout)"""
+    bad = oracle_returns(ops, impl)
+    for i, (o, r) in enumerate(zip(ops, impl)):
+        w = o.split()
+        if w[0] != 'partraw' or not r.startswith('ok'):
+            continue
+        e, it, isz = fmt_of(w[1])
+        b = bytes.fromhex(w[2]) if w[2] != '-' else b''
+        if len(b) < 7 * isz:
+            bad.append((i, 'C20 parallel reader accepted a %d-byte file (no header)' % len(b)))
+            continue
+        cnt = struct.unpack_from(e + '7' + it, b, 0)
+        need = 7 * isz + 24 * cnt[0] + isz * sum(c * (PER[k] + (1 if k in TAGGED else 0)) for c, k in zip(cnt[1:], KINDS))
+        if any(c < 0 for c in cnt) or need > len(b):
+            bad.append((i, 'C20 parallel reader ACCEPTED a %d-byte %s file whose counts %s need %d bytes'
+                        % (len(b), w[1], list(cnt), need)))
+    return bad
 
 
 def gen_c20_sweep(rng, tier):
@@ -785,7 +811,7 @@ C20_ROBUST = Stream('c20_ugrid_robust', 'h_ugrid', 'ugrid', gen_c20_robust, orac
 C20_INDEX = Stream('c20_ugrid_index', 'h_ugrid', 'ugrid', gen_c20_index, oracle=oracle_index, whitebox=['ref_import'],
                    nontrivial=lambda op, out: True, session='\x00none', harness_args=['--limit', '10'],
                    site='ugrid-vertex-index-unchecked')
-C20_COUNT = Stream('c20_ugrid_count', 'h_ugrid', 'ugrid', gen_c20_count, oracle=oracle_returns, whitebox=['ref_import'],
+C20_COUNT = Stream('c20_ugrid_count', 'h_ugrid', 'ugrid', gen_c20_count, oracle=oracle_count, whitebox=['ref_import'],
                    nontrivial=lambda op, out: True, session='\x00none', harness_args=['--limit', '10'],
                    site='ugrid-part-count-overflow')
 C20_SWEEP = Stream('c20_ugrid_sweep', 'h_ugrid', 'ugrid', gen_c20_sweep, oracle=oracle_returns, whitebox=['ref_import'],
